@@ -103,7 +103,7 @@ def gen_att(rng, tier, seed):
             ops.append(['subscribe', bearer, rng.randrange(1000), rng.choice([1, 2, 3, 0])])
         else:
             ops.append(['push', rng.randrange(1000), rng.choice(['notify', 'indicate', 'indicate']), rng.choice([0, 1, 20, 22, 100, 600]),
-                        rng.choice([0.0, 0.01, 1.0, 10.0])])
+                        rng.choice([0.0, 0.01, 1.0, 10.0, 35.0])])  # 35 s: the confirmation comes after the server gave up (30 s)
     return {
         'db': db, 'ops': ops, 'server_mtu': rng.choice([23, mtu_hint, 100, 517]), 'eatt_mtu': [rng.choice([64, 100, 247, 512]), rng.choice([64, 100, 247, 512])],
         'profile': rng.choice(PROFILE_NAMES), 'use_eatt': any(len(o) > 1 and o[1] == 'eatt' for o in ops),
@@ -166,6 +166,8 @@ def run_att(case):
             if len(pdu) > b.mtu:
                 sim.violation_once('mtu', f'pdu-exceeds-att-mtu:opcode={pdu[0]:#04x}:{b.name}', f'{len(pdu)} bytes on a bearer with ATT_MTU {b.mtu}')
             op = pdu[0]
+            if op == 0x01 and len(pdu) >= 2 and pdu[1] == 0x1E:
+                sim.violation_once('confreply', f'reply-to-a-confirmation:{b.name}', f'the server answered a Handle Value Confirmation with {pdu.hex()}')
             if op == 0x1B:
                 sim.probe('notification_received')
                 b.unsolicited.append(pdu)
@@ -181,11 +183,14 @@ def run_att(case):
                 b.rx.append(pdu)
 
         confirm_delay = [0.0]
+        confirm_late = [False]
 
         def confirm(b: Bearer):
             if b.ind_outstanding > 0:
                 b.ind_outstanding -= 1
                 b.send(bytes([0x1E]))
+                if confirm_late[0]:
+                    sim.probe('confirmation_after_the_indication_timed_out')
 
         world[0].device.l2cap_channel_manager.register_fixed_channel(ATT_CID, lambda handle, pdu: on_server_pdu(fixed, bytes(pdu)))
         if case['use_eatt']:
@@ -329,6 +334,8 @@ def run_att(case):
                     continue
                 ch = sub_chars[op[1] % len(sub_chars)]
                 confirm_delay[0] = op[4]
+                if op[4] > 30.0 and op[2] == 'indicate':
+                    confirm_late[0] = True
                 value = bytes((7 * i) & 0xFF for i in range(op[3]))
                 coro = server.indicate_subscribers(ch, value) if op[2] == 'indicate' else server.notify_subscribers(ch, value)
                 push_tasks.append((op[2], sim.loop.create_task(coro)))
@@ -369,6 +376,20 @@ def run_att(case):
                 if not t.done():
                     sim.violation_once('pushhang', f'{kind_}-call-never-returned', describe_task(t))
                     t.cancel()
+            if confirm_late[0]:
+                # the late confirmations arrive now; then the indication slot must be free again
+                sim.loop.advance(12.0)
+                if sub_chars:
+                    for b_ in bearers.values():
+                        b_.unsolicited.clear()
+                    confirm_delay[0] = 0.0
+                    t2 = sim.loop.create_task(server.indicate_subscribers(sub_chars[0], b'after-late-confirmation'))
+                    sim.loop.drive(t2.done, vt_budget=60.0, step_budget=300_000)
+                    if not t2.done():
+                        sim.violation_once('pushhang', 'indicate-call-never-returned:after-late-confirmation', describe_task(t2))
+                        t2.cancel()
+                    elif t2.exception() is not None:
+                        sim.violation_once('pushexc', f'indicate-raised:after-late-confirmation:{type(t2.exception()).__name__}', repr(t2.exception()))
         sim.trace.shape(tuple(shape))
         return result(sim, nontrivial=len(answered) >= 4)
     finally:
